@@ -675,13 +675,39 @@ func TestVerifC03(t *testing.T) {
 						}
 					})
 					res := "None"
+					// fillContentMatches on its own (candidates may span lines): C03_line_match_multiline applies to
+					// non-empty, in-bounds, sorted, non-overlapping content candidates
+					multiOK := direct && nonOverlap
+					for _, c := range cs {
+						if !c.fn && c.sz == 0 {
+							multiOK = false
+						}
+					}
 					if !p {
 						res = cSome(vfLmCoq(lms))
 						if nonOverlap && !direct {
 							vfC03CheckLines(fail("line"), content, name, ctx, lms, true)
 						}
+						if multiOK {
+							vfC03CheckLines(fail("line-multi"), content, name, ctx, lms, false)
+							for _, lm := range lms {
+								if len(lm.LineFragments) == 0 {
+									continue
+								}
+								first, last := lm.LineFragments[0], lm.LineFragments[len(lm.LineFragments)-1]
+								nl := max(lm.LineNumber, vfLineOf(content, int(last.Offset)+last.MatchLength-1))
+								if lm.LineNumber != vfLineOf(content, int(first.Offset)) {
+									fail("line-multi")("first-fragment-line", "LineNumber is not the line of the first fragment")
+								}
+								if lm.LineEnd != vfLineStart(content, nl+1) {
+									fail("line-multi")("extension", "Line does not end with the line that holds the last byte of its last fragment")
+								}
+							}
+						}
 					} else if !direct {
 						fail("line")("panic", "fillMatches panicked on in-bounds candidates")
+					} else if multiOK {
+						fail("line-multi")("panic", "fillContentMatches panicked on non-empty, in-bounds, sorted, non-overlapping candidates")
 					}
 					csl := cs
 					if direct {
